@@ -589,6 +589,13 @@ def gen_C07(r, tier):
     for L in ([70000] if tier == "quick" else [65536, 70000, 200000]):
         # small k: the table model (nodup / count_occ over the whole k-mer list) is quadratic in the number of distinct k-mers
         cases.append("ctr %d %d 6 0 fa %s" % (r.pick([2, 3]), r.pick([1, 4, 16]), hxlist([long_record(r, L, amb=2), b"ACGTACGTACGTAA"])))
+    # one k-mer with more than 2^16 (thorough: 2^17) occurrences, in one record and spread over many: a count kept in
+    # a narrower type, or summed wrongly across chunk files, shows only here
+    for L in ([2 ** 16 + 7] if tier == "quick" else [2 ** 16 + 7, 2 ** 17 + 5]):
+        k = r.pick([1, 5, 15])
+        cases.append("ctr %d %d 6 %d fa %s" % (k, r.pick([1, 4, 16]), r.below(2), hxlist([b"A" * L, b"ACGTACGTACGTACGTAA"])))
+        many = [b"T" * (k + 63)] * ((L // 64) + 1)
+        cases.append("ctr %d %d %s 0 fa %s" % (k, r.pick([2, 8]), r.pick(["6", "0.00001"]), hxlist(many + [b"ACGTACGTACGTACGTAA"])))
     # controlled schedules through the hooks: CHECK / TAKE / INC / ADD / EXIT traces and the content of every chunk pass
     def csched_case(W, recs, k, limit, prefix):
         kmers = sum(max(0, len(x) - k + 1) for x in recs)
@@ -627,6 +634,11 @@ def gen_C08_files(r, n):
     for nrec in ([300, 1500] if n <= 400 else [300, 700, 1500, 3000]):
         recs = many_records(r, nrec)
         cases.append("cov 2 2 3 %d 20 %d 0 fa %s %s" % (r.below(2), r.pick([2, 3, 8, 16]), hxlist(recs), hxlist(recs[:50])))
+    # a multiplicity above 2^16 in the counting input: bin = floor(c / size) computed on the full count, the bin size
+    # chosen so that the k-mer does not land in the last bin (2^16 + 7 occurrences of A^k, bin size 16500: bin 3 of 5)
+    k = r.pick([1, 7, 15])
+    cases.append("cov %d 16500 5 %d 2c %d 0 fa %s %s" % (k, r.below(2), r.pick([1, 4]), hxlist([b"A" * (k + 40), b"ACGTACGTACGTACGTTTGA"]),
+                                                           hxlist([b"A" * (2 ** 16 + 7 + k - 1), b"ACGTACGTACGTACGTTTGA"])))
     return cases
 
 
